@@ -90,6 +90,8 @@ PROP = {
         "Momo.MML.C04_multimap_step_strong",
         "Momo.MML.C04_multimap_usable_after",
         "Momo.MML.C04_multimap_reachable_ok",
+        "Momo.MML.C04_multimap_fault_keeps_contents",
+        "Momo.MML.C04_multimap_step_fault_keeps_contents",
     ],
     "harnesses": [
         {"name": "c04_strong", "src": "c04_strong.cpp", "sanitize": "asan", "timeout_quick": 600},
